@@ -196,8 +196,9 @@ def gen_faults(rng, opkind, enabled, rate, est=None):
 
 
 def generate(run_seed, fault_config="all", jit=False, budget=4.0, max_pto=2, allow_n3lo=False,
-             max_ops=12, n3lo=False, big=False, huge=False, many=False, meta=None):
+             max_ops=12, n3lo=False, big=False, huge=False, many=False, manyq=False, meta=None):
     st = Streams(run_seed)
+    big = big or manyq
     cfg, ops_rng, frng = st["config"], st["ops"], st["faults"]
     th, ob = cards.gen_settings(cfg, max_pto=1 if big else max_pto, allow_n3lo=allow_n3lo)
     if big:
@@ -212,6 +213,9 @@ def generate(run_seed, fault_config="all", jit=False, budget=4.0, max_pto=2, all
         th["TMC"] = cards.wchoice(cfg, [(0, 3), (1, 3), (2, 2), (3, 2)])
         if len(ob["interpolation_xgrid"]) > 9 and th["TMC"] in (1, 3):
             th["TMC"] = 2  # many points x wide grid x integrated TMC does not fit the watchdog
+        if manyq:
+            th["PTO"] = 0
+            th["TMC"] = cfg.choice([0, 0, 2])
     if n3lo:
         # heavy-quark N3LO: the only path through the process-global grid memo
         # (heavy.n3lo.interpolators, keyed by coefficient, nf and variation); DESIGN §2.5
@@ -273,15 +277,27 @@ def generate(run_seed, fault_config="all", jit=False, budget=4.0, max_pto=2, all
         base = []
         bnames = [n for n in cards.gen_obs_names(cfg, th, ob, 4, wild=0.0)
                   if n.split("_")[0] in ("F2", "FL", "F3") or cards.is_xs(n)][: cfg.randint(1, 2)] or ["F2_light"]
+        if manyq:
+            # tens of distinct virtualities in one runner (40-80 points on 34-60 distinct Q2), and usually a second
+            # observable on the same kinematics so that the early ones are needed again
+            lo_q = 2.0
+            pools["Q2"] = [round(lo_q * 1.04 ** k, 3) for k in range(120)]
+            cfg.shuffle(pools["Q2"])
         for name in bnames:
             npts = cfg.randint(9, 26 if not cards.is_xs(name) else 12)
             if th["TMC"] in (1, 3) and th["PTO"] == 1:
                 npts = min(npts, 10)
+            if manyq:
+                npts = cfg.randint(40, 80 if not cards.is_xs(name) else 50)
             pts = cards.gen_points(cfg, pools, name, npts, th)
             # non-adjacent repeats of whole points and of Q2 values
             for _ in range(cfg.randint(1, 4)):
                 pts.insert(cfg.randrange(len(pts) + 1), copy.deepcopy(cfg.choice(pts)))
             base.append([name, pts])
+        if manyq and len(base) == 1 and cfg.random() < 0.7 and not cards.is_xs(base[0][0]):
+            k0 = base[0][0].split("_")[0]
+            twin = {"F2": "FL", "FL": "F2", "F3": "F2", "g1": "gL", "gL": "g1", "g4": "g1"}.get(k0, "F2")
+            base.append([twin + ("_" + base[0][0].split("_")[1] if "_" in base[0][0] else ""), copy.deepcopy(base[0][1])])
     if huge:
         # more than 256 points in one observable, at leading order on a three-node grid
         th["PTO"] = 0
